@@ -861,3 +861,175 @@ def r1e_bound_division(ctx):
 
 
 RULES += [r1e_bound_division]
+
+
+_LIFT_OPS = {"operator+": "+", "operator-": "-", "operator*": "*", "operator/": "sdiv", "SDiv": "sdiv", "UDiv": "udiv", "SRem": "srem",
+             "URem": "urem", "And": "and", "Or": "or", "Xor": "xor", "Shl": "shl", "LShr": "lshr", "AShr": "ashr"}
+
+
+def r10_lifted_operation_agrees(ctx):
+    ctx.rule("C08.r10", "a compound scalar abstraction (disjunctive intervals, interval-congruence pairs) lifts each arithmetic / bitwise "
+             "operation from the operation OF THE SAME MEANING of its components: the component call inside `X::UDiv` is UDiv (not "
+             "the signed operator/), inside `X::SDiv` the signed division, and so on for the 13 operations", floor=50)
+    targets = (("include/crab/domains/dis_interval_impl.hpp", "crab::domains::dis_interval"),
+               ("include/crab/domains/dis_intervals.hpp", "crab::domains::dis_interval"),
+               ("include/crab/domains/interval_congruence_impl.hpp", "crab::domains::interval_congruence"))
+    n = 0
+    for f, cpk in targets:
+        fs = [fn for fn in ctx.db.fns(f, cpk=cpk) if fn["name"] in _LIFT_OPS and fn.get("body")]
+        seen = set()
+        for fn in fs:
+            if (fn["name"], fn["line"]) in seen:
+                continue
+            seen.add((fn["name"], fn["line"]))
+            want = _LIFT_OPS[fn["name"]]
+            comp = []
+            for c in walk(fn["body"], into_lambdas=True):
+                if c.get("k") != "call" or not callee(c):
+                    continue
+                ce = callee(c)
+                nm = ce.get("name")
+                if ce.get("cpk") == cpk or nm not in _LIFT_OPS:
+                    continue
+                if not (ce.get("cpk") or "").split("::")[-1] in ("interval", "congruence", "bound"):
+                    continue
+                comp.append((c, nm))
+            if not comp:
+                continue        # not a component-wise lifting (e.g. built from other operations of the same class)
+            for c, nm in comp:
+                n += 1
+                if _LIFT_OPS[nm] == want:
+                    ctx.ok("%s::%s lifts %s::%s" % (cpk.split("::")[-1], fn["name"], callee(c)["cpk"].split("::")[-1], nm), fn, c)
+                else:
+                    ctx.bad("%s::%s is computed from `%s` of its components (%s), not from their %s: e.g. the unsigned quotient of "
+                            "[-4,-4] and [2,2] is 2^(w-1)-2 for every width w, the signed one is -2" %
+                            (cpk, fn["name"], nm, _LIFT_OPS[nm], want), fn, c, sig="lifted-op-mismatch:%s:%s" % (fn["name"], nm))
+    if n == 0:
+        ctx.fail("rule C08.r10: no component-wise lifted operation found")
+
+
+RULES += [r10_lifted_operation_agrees]
+
+
+def _unwrap_ctor(e):
+    e = strip(e)
+    for _ in range(6):
+        if isinstance(e, dict) and e.get("k") in ("ctor", "construct") and len(e.get("a", [])) == 1:
+            e = strip(e["a"][0])
+        elif isinstance(e, dict) and e.get("k") == "cast":
+            e = strip(e.get("e"))
+        else:
+            break
+    return e
+
+
+def _int_const(e):
+    e = _unwrap_ctor(e)
+    if isinstance(e, dict) and e.get("k") == "lit":
+        try:
+            return int(e.get("v"))
+        except (TypeError, ValueError):
+            return None
+    if isinstance(e, dict) and e.get("k") == "un" and e.get("op") == "-":
+        v = _int_const(e.get("e"))
+        return None if v is None else -v
+    return None
+
+
+def r1z_division_case_split(ctx):
+    ctx.rule("C08.r1z", "integer interval division, operand containing 0: the operand is split into the pieces below and above 0; the pieces "
+             "together with the separately handled points must COVER the operand (for the dividend: [lb,-1], [1,ub] and the point 0, "
+             "whose quotient 0 is joined in; for the divisor: everything but 0)", floor=2)
+    fs = [f for f in ctx.db.fns("lib/interval.cpp", name="operator/") if "z_number" in (f.get("targs") or "") and f.get("body")]
+    if not ctx.need(fs, "z_interval_t::operator/"):
+        return
+    for fn in fs:
+        body = fn["body"]
+        decls = local_decls(body)
+
+        def operand(e):
+            e = strip(e)
+            if e is None or is_this(e) or (isinstance(e, dict) and e.get("k") == "un" and e.get("op") == "*" and is_this(strip(e.get("e")))):
+                return "dividend"
+            if is_param(e, fn, 0):
+                return "divisor"
+            return None
+
+        def bound_of(e):
+            e = _unwrap_ctor(e)
+            if isinstance(e, dict) and e.get("k") == "mem" and e.get("n") in ("_lb", "_ub"):
+                op = operand(e.get("b"))
+                if op:
+                    return (op, e["n"])
+            return None
+        pieces = {}
+        for d in decls.values():
+            i = strip(d.get("i")) if "i" in d else None
+            if isinstance(i, dict) and i.get("k") in ("ctor", "construct") and len(i.get("a", [])) == 2:
+                a, b = i["a"]
+                if bound_of(a) and bound_of(a)[1] == "_lb" and _int_const(b) is not None:
+                    pieces[d["id"]] = (bound_of(a)[0], "low", _int_const(b))
+                elif bound_of(b) and bound_of(b)[1] == "_ub" and _int_const(a) is not None:
+                    pieces[d["id"]] = (bound_of(b)[0], "high", _int_const(a))
+
+        def leaves(e):
+            e = _unwrap_ctor(e)
+            if isinstance(e, dict) and e.get("k") == "call" and e.get("op") == "|" and "o" in e and e.get("a"):
+                return leaves(e["o"]) + leaves(e["a"][0])
+            return [e]
+        for i in [x for x in walk(body) if x.get("k") == "if"]:
+            c = strip(i.get("c"))
+            if not (isinstance(c, dict) and c.get("k") == "call" and callee(c) and callee(c)["name"] == "operator[]" and c.get("a") and _int_const(c["a"][0]) == 0):
+                continue
+            P = operand(c.get("o"))
+            if P is None:
+                continue
+            rs = [r for r in walk(i.get("t")) if r.get("k") == "ret"]
+            if len(rs) != 1:
+                ctx.undecided("division: the branch `%s` does not end in one return" % src(c), fn, i)
+                continue
+            low = high = None
+            consts = []
+            other = []
+            for lf in leaves(rs[0].get("v")):
+                k = _int_const(lf)
+                if k is None and isinstance(lf, dict) and lf.get("k") == "ref" and lf.get("rk") == "local" and lf.get("id") not in pieces:
+                    k = _int_const(resolve_local(body, lf, decls))
+                if k is not None:
+                    consts.append(k)
+                    continue
+                refs = [x for x in walk(lf) if isinstance(x, dict) and x.get("k") == "ref" and x.get("id") in pieces and pieces[x["id"]][0] == P]
+                isdiv = isinstance(lf, dict) and lf.get("k") == "call" and callee(lf) and callee(lf)["name"] == "operator/"
+                if isdiv and len(refs) == 1:
+                    _, side_, k0 = pieces[refs[0]["id"]]
+                    if side_ == "low":
+                        low = k0
+                    else:
+                        high = k0
+                else:
+                    other.append(lf)
+            if low is None or high is None or other:
+                ctx.undecided("division: the case split on `%s` is not `quotient(piece below) | quotient(piece above) [| constant]`" % src(c), fn, rs[0])
+                continue
+            missing = set(range(low + 1, high))
+            if P == "divisor":
+                if missing <= {0} and not consts:
+                    ctx.ok("divisor containing 0 split into [lb,%d] and [%d,ub]: everything but 0" % (low, high), fn, rs[0])
+                else:
+                    ctx.bad("division by an interval containing 0: the pieces [lb,%d] and [%d,ub] leave out the divisors %s" % (low, high, sorted(missing - {0})),
+                            fn, rs[0], sig="div-split-divisor")
+            else:
+                uncovered = sorted(k for k in missing if k not in consts)
+                bogus = sorted(k for k in consts if k != 0)
+                if not uncovered and not bogus:
+                    ctx.ok("dividend containing 0 split into [lb,%d], [%d,ub] and the point(s) %s" % (low, high, sorted(consts)), fn, rs[0])
+                elif uncovered:
+                    ctx.bad("division of an interval containing 0: the pieces [lb,%d] and [%d,ub] leave out the dividend(s) %s and their quotient "
+                            "is not joined in: [0,0] / [2,3] is bottom although 0 / 2 = 0 (and every state with x = 0 is lost)" % (low, high, uncovered),
+                            fn, rs[0], sig="div-split-dividend-uncovered")
+                else:
+                    ctx.bad("division: the constant %s is joined in as the quotient of a dividend, but only 0 / x is a constant" % bogus, fn, rs[0],
+                            sig="div-split-constant")
+
+
+RULES += [r1z_division_case_split]
